@@ -140,10 +140,21 @@ class Reaction(Object):
             )
         forward_variable = self.forward_variable
         reverse_variable = self.reverse_variable
-        self._id = value
+        old_id = self._id
+        try:
+            self._id = value
+            forward_variable.name = self.id
+            reverse_variable.name = self.reverse_id
+        except Exception:
+            # the solver interface refused the name (e.g. whitespace): keep the
+            # reaction and its variables as they were
+            self._id = old_id
+            if forward_variable.name != self.id:
+                forward_variable.name = self.id
+            if reverse_variable.name != self.reverse_id:
+                reverse_variable.name = self.reverse_id
+            raise
         self.model.reactions._generate_index()
-        forward_variable.name = self.id
-        reverse_variable.name = self.reverse_id
 
     @property
     def reverse_id(self) -> str:
